@@ -1463,7 +1463,7 @@ def writer_order_rules(fb, R):
             calls |= {c['id'] for c in m.all_nodes() if c.get('k') == 'call' and c.get('callee') is not None
                       and (m.root_var(c['callee']) or (None, None))[:2] == ('var', d0)}
             w = path_search(m, m.entry, lambda x: isinstance(x, tuple) and x[0] == 'exit',
-                            lambda x: x in calls or m.nodes[x].get('k') == 'throw', from_block_start=True)
+                            lambda x: x in calls or _is_throw(m, x), from_block_start=True)
             R.check(bool(calls) and w is None, 'writer-flush-entry-points', m.q, m.site,
                     'ensure_cleanup must invoke the function it is given on every non-throwing path: %s' % describe_path(m, w))
 
